@@ -19,7 +19,9 @@ ASSUMPTIONS = ['reference evaluator: unary +/- tightest, then * / \\ (left to ri
                'chains mixing \\ with * or / without parentheses are outside the statement: only their exception type is checked',
                'a number is digits[.digits] or .digits; "1." is not a documented number form: only the exception type is checked',
                'blanks between tokens are accepted; a trailing blank is not part of an expression "built from numbers, operators, signs and parentheses" (only the exception type is checked)',
-               'extract positions 0..len (None = len); out-of-range positions are outside the statement']
+               'extract positions 0..len (None = len); out-of-range positions are outside the statement',
+               'the look-ahead adjusted position = the caret, or - look-ahead on and a `)` at the caret - the position after that `)` and the run of `)` and blanks '
+               '(blank, tab, nbsp, CR, LF: the set the backward scan accepts inside an expression) that follows it; the range must end exactly there']
 ALPHA = ['1', '2', '.5', '7', '+', '-', '*', '/', '\\', '(', ')', ' ']
 XALPHA = list('1.+-*/\\() a\n')
 BOUNDS = {'quick': {'eval_len': 5, 'extract_len': 4}, 'thorough': {'eval_len': 6, 'extract_len': 5}}
